@@ -200,7 +200,7 @@ pub fn run(ctx: &Ctx) {
         ctx,
         Pt {
             name: "c06.tree",
-            cases: ctx.scale(12_000, 500_000),
+            cases: ctx.scale(200_000, 1_000_000),
             max_len: 900,
             decode: &decode,
             oracle: &oracle,
